@@ -201,7 +201,8 @@ def run_cli(
         "status": status,
         "stdout": stdout.content(),
         "stderr": stderr.content(),
-        "outputs": {k: v.content() for k, v in fs.outputs.items()},
+        # files written by the tool, and -- as they were -- the files it did not open for writing
+        "outputs": {**{k: v.decode("utf-8", "replace") for k, v in fs.files.items()}, **{k: v.content() for k, v in fs.outputs.items()}},
         "escaped": type(escaped).__name__ if escaped is not None else None,
         "escaped_msg": (str(escaped)[:200] if escaped is not None else ""),
         "escaped_where": innermost,
